@@ -1438,13 +1438,14 @@ def run(ctx):
         ctx.mark_broken('table:CondTables', err['CondTables'])
     ctx.set_obligations(coq.compile_props('C12'))
     quick = ctx.tier == 'quick'
+    timing = {'build_and_props_s': round(time.time() - ctx.t0, 1)}
     SHRINK.update(t0=time.time(), spent=0.0)
-    key_stream(ctx, cirq, V, 300 if quick else 3000)
-    struct_stream(ctx, cirq, V, 240 if quick else 2400)
-    unitary_stream(ctx, cirq, V, 100 if quick else 1500)
-    sim_stream(ctx, cirq, V, 120 if quick else 1500)
-    until_stream(ctx, cirq, V, 40 if quick else 400)
-    scope_stream(ctx, cirq, V, 60 if quick else 600)
+    for name, f, nq, nt in (('keys', key_stream, 300, 3000), ('struct', struct_stream, 240, 2400), ('unitary', unitary_stream, 100, 1500),
+                            ('sim', sim_stream, 120, 1500), ('until', until_stream, 40, 400), ('scoping', scope_stream, 60, 600)):
+        t = time.time()
+        f(ctx, cirq, V, nq if quick else nt)
+        timing[name + '_s'] = round(time.time() - t, 1)
+    ctx.cov['timing'] = timing
 
 
 def norm_key(k):
